@@ -32,9 +32,14 @@ def urls_from_text(string):
                 remainder, url = url.split("](", 1)
                 yield remainder.strip()
 
-                # NOTE: the link target may not be an url at all
-                if not re.match(URL_IN_TEXT_RE, url):
+                # NOTE: the link target may not be an url at all, or may be
+                # followed by something else
+                target_match = re.match(URL_IN_TEXT_RE, url)
+
+                if target_match is None:
                     continue
+
+                url = target_match.group(0)
 
         last_punct = None
 
